@@ -59,7 +59,7 @@ class CobaMultiprocessor(Filter[Iterable[Any], Iterable[Any]]):
 
                 stdlog        = spawn_context.Queue()
                 array         = spawn_context.RawArray(c_short,[0]*2**16)
-                lock          = spawn_context.Lock()
+                lock          = spawn_context.RLock() #re-entrant, see ConcurrentCacher.__init__
                 read_stdlog   = QueueSource(stdlog)
                 write_stdlog  = QueueSink(stdlog)
 
